@@ -309,4 +309,29 @@ example : ∃ s, angular_separation 0 0 90 0 = .ok s ∧ angular_separation 0 0 
   refine ⟨90, key _ _ _ _ ?_, key _ _ _ _ ?_, key _ _ _ _ ?_, by norm_num⟩ <;>
     simp [dot, dir, r0, h90]
 
+/-! ### growth round: `straight_line` (was tied and range-checked only), independence of the argument order -/
+
+/-- `straight_line`: for EVERY six Angles the call either returns `(psi, omega)` with `psi` in [0°, 180°] and `omega`
+    in [-90°, 90°], or raises ZeroDivisionError — and it raises exactly when one of the two denominators
+    `|l₁×…|·|l₂×…|`, `|u₂|·|l₃×…|` is zero (two of the bodies coincide or are antipodal).  In particular no ValueError:
+    the clamp `max(-1, min(1, ·))` keeps `acos` / `asin` inside their domain also for bodies exactly in line. -/
+theorem straight_line_total (α1 δ1 α2 δ2 α3 δ3 : ℝ) :
+    ∃ n1 d1 n2 d2 : ℝ, straight_line α1 δ1 α2 δ2 α3 δ3 = sl_tail n1 d1 n2 d2 ∧
+      ((∃ psi omega, straight_line α1 δ1 α2 δ2 α3 δ3 = .ok (psi, omega) ∧ (0 ≤ psi ∧ psi ≤ 180) ∧
+          (-90 ≤ omega ∧ omega ≤ 90) ∧ d1 ≠ 0 ∧ d2 ≠ 0) ∨
+       (straight_line α1 δ1 α2 δ2 α3 δ3 = .error .zeroDivisionError ∧ (d1 = 0 ∨ d2 = 0))) := by
+  obtain ⟨n1, d1, n2, d2, h⟩ := straight_line_eq_tail α1 δ1 α2 δ2 α3 δ3
+  exact ⟨n1, d1, n2, d2, h, by rw [h]; exact sl_tail_total n1 d1 n2 d2⟩
+
+/-- The clamp of `straight_line` is the identity on [-1, 1] and saturates outside: `max(-1, min(1, q))`. -/
+theorem straight_line_clamp (q : ℝ) : |pmax2 (-1.0) (pmin2 1.0 q)| ≤ 1 := clamp_abs_le_one q
+
+/-- `circle_diameter` does not depend on the order in which the three bodies are given: exchanging bodies 1 and 2, or
+    bodies 2 and 3 (these generate all six orders), returns the same result — value or exception — for every input,
+    ties between the three separations included.  (The choice of "the largest of the three" is a symmetric function.) -/
+theorem circle_diameter_order_independent (α1 δ1 α2 δ2 α3 δ3 : ℝ) :
+    circle_diameter α1 δ1 α2 δ2 α3 δ3 = circle_diameter α2 δ2 α1 δ1 α3 δ3 ∧
+    circle_diameter α1 δ1 α2 δ2 α3 δ3 = circle_diameter α1 δ1 α3 δ3 α2 δ2 :=
+  ⟨circle_diameter_swap12 α1 δ1 α2 δ2 α3 δ3, circle_diameter_swap23 α1 δ1 α2 δ2 α3 δ3⟩
+
 end Pymeeus.C05
